@@ -24,6 +24,7 @@ import (
 
 	"github.com/dgraph-io/badger/v4/pb"
 	"github.com/dgraph-io/badger/v4/skl"
+	"github.com/dgraph-io/badger/v4/verifhook"
 	"github.com/dgraph-io/badger/v4/y"
 	"github.com/dgraph-io/ristretto/v2/z"
 )
@@ -125,8 +126,12 @@ func (db *DB) openMemTable(fid, flags int) (*memTable, error) {
 		if err := mt.wal.Delete(); err != nil {
 			db.opt.Errorf("while deleting file: %s, err: %v", filepath, err)
 		}
+		verifhook.FS("unlink", filepath, 0, 0)
 	}
 
+	if lerr == z.NewFile {
+		verifhook.FS("create", filepath, 0, 0)
+	}
 	if lerr == z.NewFile {
 		return mt, lerr
 	}
@@ -153,6 +158,7 @@ func (db *DB) mtFilePath(fid int) string {
 }
 
 func (mt *memTable) SyncWAL() error {
+	defer verifhook.FS("sync", mt.wal.path, 0, int64(mt.wal.writeAt))
 	return mt.wal.Sync()
 }
 
@@ -272,6 +278,7 @@ func (lf *logFile) Truncate(end int64) error {
 	}
 	y.AssertTrue(!lf.opt.ReadOnly)
 	lf.size.Store(uint32(end))
+	defer verifhook.FS("truncate", lf.path, end, 0)
 	return lf.MmapFile.Truncate(end)
 }
 
@@ -304,6 +311,7 @@ func (lf *logFile) encodeEntry(buf *bytes.Buffer, e *Entry, offset uint32) (int,
 		eBuf := make([]byte, 0, len(e.Key)+len(e.Value))
 		eBuf = append(eBuf, e.Key...)
 		eBuf = append(eBuf, e.Value...)
+		verifhook.EvB("iv.log", lf.dataKey.KeyId, lf.generateIV(offset))
 		if err := y.XORBlockStream(
 			writer, eBuf, lf.dataKey.Data, lf.generateIV(offset)); err != nil {
 			return 0, y.Wrapf(err, "Error while encoding entry for vlog.")
@@ -410,6 +418,7 @@ func (lf *logFile) doneWriting(offset uint32) error {
 		if err := lf.Sync(); err != nil {
 			return y.Wrapf(err, "Unable to sync value log: %q", lf.path)
 		}
+		verifhook.FS("sync", lf.path, 0, int64(offset))
 	}
 
 	// Before we were acquiring a lock here on lf.lock, because we were invalidating the file
